@@ -16,7 +16,7 @@ from ..flows import canon_flow, compile_flow_sheet, rows_to_csv
 from ..gen import sheets as G
 
 MANIFEST = dict(
-    text="Proof: Lean theorems validCert_sound / flows_equiv_of_cert (an accepted bisimulation certificate implies equal observation traces for EVERY infinite sequence of contact replies, field/group values, random draws and sub-flow/webhook/airtime outcomes, under every interpretation of the tests). The verified checker is run by the driver on every generated core sheet between the REAL compiler's output and the reference interpretation refFlow (the statement of C02 made executable in Lean; reference_flow_closed: for EVERY sheet it is a closed flow, so no reference path ends for a structural reason). Universal over sheets: proved for ALL sheets of the fragment CoreSheet.inFragment (every row type of a core sheet except no_op and insert_as_block: action rows left unconditionally or conditionally — the compiler's router node behind the action node, two compiled nodes for one reference node —, wait_for_response with or without timeout, split_by_value, split_by_group, split_random, start_new_flow / call_webhook / transfer_airtime, go_to / hard_exit / loose_exit, with any number of conditional or unconditional edges: chains, trees, joins, last-edge-wins defaults, tests in row order, No Response branches, buckets, fixed outcomes, explicit category names; rows standing for themselves — no given node identifier or node name —; under the single-meaning conditions edgeOk / distinctTests / sameVars / freshNames, each with a kernel-checked negative witness) with the Lean compiler model (tied to the real parser by the exact comparison of C01) in place of the real compiler — C02_fragment / compile_refines_reference: if the model compiles the sheet and the reference exists, the traces agree for every answer stream (lock-step simulation of the compiler machine and the reference's pass 1; then a bisimulation up to node splitting between the index-resolved abstractions of the two flows, Flow.run_split); the two inputs of the theorem (CoreSheet.toEvent / toRRow of one parsed row) are cross-checked against what the harness sends on every explored sheet. Outside the fragment (C02_fragment_full visible) the claim is decided per explored sheet.",
+    text="Proof: Lean theorems validCert_sound / flows_equiv_of_cert (an accepted bisimulation certificate implies equal observation traces for EVERY infinite sequence of contact replies, field/group values, random draws and sub-flow/webhook/airtime outcomes, under every interpretation of the tests). The verified checker is run by the driver on every generated core sheet between the REAL compiler's output and the reference interpretation refFlow (the statement of C02 made executable in Lean; reference_flow_closed: for EVERY sheet it is a closed flow, so no reference path ends for a structural reason). Universal over sheets: proved for ALL sheets of the fragment CoreSheet.inFragment (every row type of a core sheet except insert_as_block: action rows left unconditionally or conditionally — the compiler's router node behind the action node, two compiled nodes for one reference node —, wait_for_response with or without timeout, split_by_value, split_by_group, split_random, start_new_flow / call_webhook / transfer_airtime, go_to / hard_exit / loose_exit, no_op rows — junctions entered from other rows and left either by one unconditional edge (the compiler creates NO node and re-connects the sources: node elision against the reference's empty node) or by conditional edges first, then unconditional ones (a router node on both sides; the other order is the known finding F-C02-b, kept outside with a kernel-checked witness that reproduces it), under the schedule conditions noopShape / noopSched / firstOk, which every sheet the harness calls noop_stable satisfies —, with any number of conditional or unconditional edges: chains, trees, joins, last-edge-wins defaults, tests in row order, No Response branches, buckets, fixed outcomes, explicit category names; rows standing for themselves — no given node identifier or node name —; under the single-meaning conditions edgeOk / distinctTests / sameVars / freshNames, each with a kernel-checked negative witness; of the no_op conditions the forced ones have witnesses, four shapes the proof's schedule does not cover are listed as not shown to be forced) with the Lean compiler model (tied to the real parser by the exact comparison of C01) in place of the real compiler — C02_fragment / compile_refines_reference: if the model compiles the sheet and the reference exists, the traces agree for every answer stream (lock-step simulation of the compiler machine and the reference's pass 1 — for no_op rows against a schedule of the edges in the order in which the compiler's lazy junctions let them take effect —; then a bisimulation up to node splitting and node elision between the index-resolved abstractions of the two flows, Flow.run_split); the two inputs of the theorem (CoreSheet.toEvent / toRRow of one parsed row) are cross-checked against what the harness sends on every explored sheet. Outside the fragment (C02_fragment_full visible) the claim is decided per explored sheet.",
     ref="§5 C02",
     note="Trusts: Lean kernel; certificate SEARCH is untrusted (only the validated certificate counts); harness canonicaliser of actions (invented uuids dropped) and the row→action/operand reference table (harness/gen/sheets.py reference_row); real RowParser used to parse the CSV rows for both sides. Domain: WFcore ∧ NoopStable sheets (DESIGN §5 C02 notes); known finding F-C02-b outside it.",
     technique="Lean 4 proof of bisimulation-certificate soundness + verified checker run on real compiler output vs executable reference semantics",
@@ -28,7 +28,8 @@ LVL = {"catNames": False, "resultName": True}
 class FragmentGen(G.SheetGen):
     """Sheets inside the fragment of the universal theorem (Lean: CoreSheet.inFragment, Props/C02.C02_fragment):
     action rows, wait_for_response / split_by_value / split_by_group rows, start_new_flow / call_webhook /
-    transfer_airtime / split_random rows, go_to and hard/loose exit rows; the conditions leaving one action row name the
+    transfer_airtime / split_random rows, go_to and hard/loose exit rows, no_op rows (junctions: entered from rows that
+    are not no_op rows and left at once, conditional edges first, while their sources receive no other edge); the conditions leaving one action row name the
     same variable (or none), conditions leaving a wait row name no variable, explicit category names are new when used, tests
     leaving one row are distinct.  Whether a sheet really is in the fragment is decided by the Lean predicate
     (driver op core.views), not by this generator."""
@@ -53,12 +54,15 @@ class FragmentGen(G.SheetGen):
             r = rng.random()
             if not self.nodes or r < 0.5:
                 self._node_row(rng.choice(G.ACTION_TYPES))
-            elif r < 0.8:
+            elif r < 0.78:
                 self._node_row(rng.choice(self.FRAG_ROUTERS))
-            elif r < 0.92:
+            elif r < 0.88:
                 self._goto_row()
-            else:
+            elif r < 0.93:
                 self._exit_row()
+            else:
+                # a junction: entered, then left at once (conditional edges first) while its sources rest
+                self._noop_row(constrained=True)
         return self.rows
 
 
@@ -197,7 +201,7 @@ def run(ck: core.Check):
         "equivalence is at observation level {operand, ordered tests with arguments, wait/timeout, result name}; category names are not part of C02's statement",
     ]
     ck.partial_gap = [
-        "C02_full (all sheets) is proved universally only on the fragment CoreSheet.inFragment (C02_fragment, with the Lean compiler model — tied to the real parser in C01 — in place of the real compiler; a quarter of the explored sheets is generated inside it — FragmentGen — and the evidence counts how many explored sheets lie inside it as decided by the Lean predicate: in_proved_fragment); outside it (C02_fragment_full: no_op rows, rows naming an existing node — node merging —, blocks) it is decided per explored sheet by the verified certificate checker on the real output",
+        "C02_full (all sheets) is proved universally only on the fragment CoreSheet.inFragment (C02_fragment, with the Lean compiler model — tied to the real parser in C01 — in place of the real compiler; a quarter of the explored sheets is generated inside it — FragmentGen — and the evidence counts how many explored sheets lie inside it as decided by the Lean predicate: in_proved_fragment); outside it (C02_fragment_full: rows naming an existing node — node merging —, blocks, and no_op rows left by several unconditional edges only / into an exit row / entered from a no_op row / never left) it is decided per explored sheet by the verified certificate checker on the real output",
         "reference_flow_closed IS proved for every sheet (the reference interpretation is always a closed flow); the per-sheet closedB run on the reference flow is kept as a cross-check of the driver",
     ]
     rp = _parser()
